@@ -1167,7 +1167,12 @@ func buildConn(r *rng, sc *sessionCase, kinds []string, nonce *uint32, blocks fu
 		case "late":
 			*nonce++
 			rp := pc.reply(nonceReply(*nonce), crc)
-			rs = append(rs, reaction{pieces: []piece{{data: rp[:32], delay: 15000000}, {data: rp[32:], delay: 10000000}}})
+			// well inside the receive timeout (80 ms) even on a loaded machine
+			rs = append(rs, reaction{pieces: []piece{{data: rp[:32], delay: 4000000}, {data: rp[32:], delay: 3000000}}})
+		case "toolate": // the complete reply arrives only after the receive timeout has passed: on a connection the client has given up
+			*nonce++
+			rp := pc.reply(nonceReply(*nonce), crc)
+			rs = append(rs, reaction{pieces: []piece{{data: rp, delay: sc.rt + 40000000}}})
 		case "silent":
 			rs = append(rs, reaction{})
 		case "close-before":
@@ -1414,11 +1419,11 @@ func tcpSession(r *rng) sessionCase {
 	sc := baseSession(r)
 	sc.mode = "tcp"
 	sc.sec, sc.nsec = tcpSec, tcpNsec
-	sc.rt, sc.st, sc.ct = 40000000, 500000000, 500000000
+	sc.rt, sc.st, sc.ct = 80000000, 500000000, 500000000
 	return sc
 }
 
-var userKinds = []string{"answer", "late", "silent", "close-before", "close-inside", "garbled", "badcrc", "malformed"}
+var userKinds = []string{"answer", "late", "toolate", "silent", "close-before", "close-inside", "garbled", "badcrc", "malformed"}
 var authKinds = []string{"auth-ok", "auth-refuse", "silent", "close-before", "garbled"}
 
 // layoutHistory scripts the connections a well-behaved client would use for the given behaviours
@@ -1508,7 +1513,7 @@ func init() {
 		parallel: 16,
 		rule:     "real TCP on loopback: call sequences over {send one, send several, disconnect} x per-exchange peer behaviour {answer, answer late, stay silent, close before / inside the reply, garbled header with following blocks or a well-formed stale frame, bad CRC, malformed payload, refuse authentication}, exhaustively to depth 2 (thorough: 3, and 4 over the five most distinct behaviours) + random histories up to length 10 (thorough: 14); every request and reply carries a nonce; observable = per call OK(reply)/error and the frames each connection of the device received; non-trivial = at least one exchange does not simply succeed; distinct by case line",
 		gen: func(tier string, r *rng, emit func(string)) {
-			beh := []string{"answer", "late", "silent", "close-before", "close-inside", "garbled", "badcrc", "malformed", "refuse", "empty"}
+			beh := []string{"answer", "late", "toolate", "silent", "close-before", "close-inside", "garbled", "badcrc", "malformed", "refuse", "empty"}
 			var rec func(prefix []string, depth int)
 			rec = func(prefix []string, depth int) {
 				if len(prefix) > 0 {
